@@ -335,8 +335,8 @@ def relativise(ctx, mod, vc, known, args):
     cond = e.truth(e.eval_spec_fn(st, fn, amap))
     extra = list(e.axioms)
     e.axioms, e.case_splits = saved_ax, saved_cs
-    vc2 = VC(vc.name + "/relativised", vc.hyps + extra + [z3.Not(cond)], vc.goal, inputs=vc.inputs,
-             note=vc.note + f" [known finding {known['id']} excluded]")
+    vc2 = VC(vc.name + "/relativised", vc.hyps + [z3.Not(cond)], vc.goal, inputs=vc.inputs,
+             note=vc.note + f" [known finding {known['id']} excluded]", axioms=list(vc.axioms) + extra)
     solve_all([vc2], tier=ctx.tier)
     ctx.vcs.append(vc2)
     vc2.kind = "relativised"
